@@ -8,8 +8,13 @@ use quick_xml::reader::Reader;
 /// K1: `detect_encoding` on every 4-byte prefix (and shorter inputs) == the table of XML appendix F
 /// restricted to what the crate documents. raw: [len, b0..b3]
 pub fn check_detect(raw: &[u8]) -> Outcome {
+    check_detect_n::<4>(raw)
+}
+
+/// Same with up to N bytes of input (bytes after the fourth must not matter). raw: [len, b0..b(N-1)]
+pub fn check_detect_n<const N: usize>(raw: &[u8]) -> Outcome {
     let len = raw[0] as usize;
-    require!(len <= 4);
+    require!(len <= N);
     let b = &raw[1..1 + len];
     let got = quick_xml::encoding::detect_encoding(b);
     // reference
